@@ -2,6 +2,7 @@
     Statements only; proofs are in Inv.v / Hist.v / Build.v. *)
 From Coq Require Import List NArith ZArith Bool.
 From Mast Require Import Reload WorldInv Prim Key Tree KeyOrder Codec Store Diff World Erase Build Spec Canon Level Inv Hist.
+From Mast Require Import ReloadB.
 Import ListNotations.
 
 Section GENERIC.
@@ -52,7 +53,7 @@ Theorem C04_canonical_partial : forall ops1 ops2 t1 t2 tr1 tr2 bf l,
                 erase_n _ _ n1 = erase_n _ _ n2.
 Proof. exact same_entries_same_tree. Qed.
 
-(** The same with persist and reload points, many trees and many stores (binary format; side
+(** The same with persist and reload points, many trees and many stores (each tree of either node format; side
     conditions [conds] as in C01_refines_sorted_map): by whatever histories two trees were reached -
     inserted in any order, grown and shrunk, cloned, persisted, reloaded from any store - equal
     contents and branch factor give equal height, size and shape. *)
